@@ -45,7 +45,8 @@ SHARD_TIMEOUT = {"quick": 600, "thorough": 3200}
 def plan(tier, seed):
     n, cases = (8, 40) if tier == "quick" else (32, 120)
     return [{"backend": b, "case_seed": seed * 7919 + i, "cases": cases} for b in ("sql", "lmdb") for i in range(n)] + \
-           [{"backend": b, "case_seed": seed * 7919 + j, "crowd": 900, "cases": 0} for b in ("sql", "lmdb") for j in range(1 if tier == "quick" else 4)]
+           [{"backend": b, "case_seed": seed * 7919 + j, "crowd": 900, "cases": 0} for b in ("sql", "lmdb") for j in range(1 if tier == "quick" else 4)] + \
+           [{"backend": b, "case_seed": seed * 7919 + j, "backlog": True, "cases": 0} for b in ("sql", "lmdb") for j in range(1 if tier == "quick" else 3)]
 
 
 class Cmd:
@@ -382,6 +383,9 @@ async def run_case(backend, seed, counters, coverage):
 def run_shard(spec):
     counters, coverage = {}, {"backends": {spec["backend"]: 1}}
     viols, nontrivial = [], []
+    if spec.get("backlog"):
+        v, nt = R.run(run_backlog, spec["backend"], counters, spec["case_seed"])
+        return {"evaluations": counters.get("backlog_pairs", 0), "nontrivial": sorted(set(nt)), "counters": counters, "coverage": coverage, "violations": v[:2], "samples": [], "inconclusive": []}
     if spec.get("crowd"):
         v, nt = R.run(run_crowd, spec["backend"], counters, spec["case_seed"], spec["crowd"])
         return {"evaluations": counters.get("crowd_pairs", 0), "nontrivial": sorted(set(nt)), "counters": counters, "coverage": coverage, "violations": v[:2], "samples": [], "inconclusive": []}
@@ -444,6 +448,56 @@ async def run_crowd(backend, counters, seed, n=900):
     return viols, nontrivial
 
 
+async def run_backlog(backend, counters, seed):
+    """a peer that reads slowly while several of its subscriptions are still being answered: more frames are waiting for it
+    than max_limit; an event accepted meanwhile is owed to each of its matching open subscriptions once it reads on"""
+    r = random.Random(seed)
+    cap = 20
+    rig = R.Rig(backend=backend, config={"analysis_delay": 0, "max_limit": cap})
+    await rig.start()
+    viols, nontrivial = [], []
+    try:
+        key = ref.key_from_seed("c05-backlog")
+        pub = rig.connect("pub")
+        for i in range(30):
+            await pub.cmd(["EVENT", ref.make_event(key, kind=1, created_at=gen.T0 + i, content="stored %d %d" % (seed, i))])
+        await rig.quiesce()
+        slow = rig.connect("slow")
+        slow.send_gate = asyncio.Event()  # clear: the peer does not read
+        nreq = r.choice([3, 4, 5])
+        for j in range(nreq):
+            slow.feed(["REQ", "full%d" % j, {"kinds": [1]}])
+        slow.feed(["REQ", "watch", {"kinds": [7]}])
+        slow.feed(["REQ", "watch2", {"kinds": [7], "since": gen.T0}, {"kinds": [9]}])
+        await slow.processed(timeout=60)
+        control = rig.connect("control")
+        await control.cmd(["REQ", "watch", {"kinds": [7]}])
+        for _ in range(200):
+            await asyncio.sleep(0.005)  # the stored queries of the slow peer fill its queue meanwhile
+        n0 = rig.rec.n
+        evs = [ref.make_event(key, kind=7, created_at=gen.T0 + 100 + i, content="live %d %d" % (seed, i)) for i in range(3)]
+        for ev in evs:
+            await pub.cmd(["EVENT", ev])
+        for _ in range(100):
+            await asyncio.sleep(0.005)
+        slow.send_gate.set()  # the peer reads on
+        await rig.quiesce(timeout=120)
+        counters["backlog_runs"] = counters.get("backlog_runs", 0) + 1
+        for ev in evs:
+            for c, subs in ((slow, ("watch", "watch2")), (control, ("watch",))):
+                for sid in subs:
+                    got = sum(1 for _, f in c.parsed_frames(n0) if isinstance(f, list) and len(f) > 2 and f[0] == "EVENT" and f[1] == sid and f[2].get("id") == ev["id"])
+                    counters["backlog_pairs"] = counters.get("backlog_pairs", 0) + 1
+                    nontrivial.append(h([backend, "backlog", nreq, c.name, sid]))
+                    if got != 1:
+                        viols.append({"key": "%s/slow-reader-backlog/%s/%s" % (backend, "missed" if got == 0 else "duplicate", "slow-peer" if c is slow else "other-peer"),
+                                      "msg": "[%s] max_limit %d, a peer with %d full answers pending did not read for a while; event %s accepted meanwhile was pushed %d times to its open matching subscription %r after it read on"
+                                             % (backend, cap, nreq, ev["id"][:12], got, sid), "replay": {"backend": backend, "backlog": True, "seed": seed}})
+    finally:
+        await rig.close()
+    return viols, nontrivial
+
+
 async def run_directed(backend, d, counters):
     """explicit scenario: subscribe filters, publish one event from another connection, then
     re-query: live and stored delivery must agree (and a MUST match must be pushed)"""
@@ -487,6 +541,10 @@ async def run_directed(backend, d, counters):
 
 
 def replay(rp, spec):
+    if rp.get("backlog"):
+        counters = {}
+        v, nt = R.run(run_backlog, rp["backend"], counters, rp.get("seed", 0))
+        return {"evaluations": 1, "nontrivial": nt, "counters": counters, "violations": v, "samples": [], "inconclusive": []}
     if "crowd" in rp:
         counters = {}
         v, nt = R.run(run_crowd, rp["backend"], counters, rp["seed"], rp["crowd"])
